@@ -45,6 +45,9 @@ def generate(rng, tier):
         yield gen_coro.gen_self_kill(rng, tier)
     for _ in range(n // 4):
         yield gen_coro.gen_lifecycle(rng, tier)
+    # supervisor coroutines: bodies acting on OTHER coroutines, then waiting / yielding / returning
+    for _ in range(n // 3):
+        yield gen_coro.gen_supervisor(rng, tier)
     # the same values in other numeric types (Fraction, int, bool): a number is a number
     for _ in range(n // 3):
         yield gen_coro.retype(rng, gen_coro.gen_timing(rng, tier))
